@@ -330,7 +330,11 @@ func c14Decimal(c *engine.Ctx, in []byte, args map[string]string) {
 	}
 }
 
-var c14Syms = []rune{',', '.', ' ', 0xA0, 0x2009, 0x1F600}
+var c14Syms = []rune{',', '.', ' ', 0xA0, 0x2009, 0x1F600, 0xB7, 0x202F, 0x1F601, 0x66B, 0x66C} // the later ones share their UTF-8 lead bytes with earlier ones
+
+func c14SameLead(a, b int) bool {
+	return string(c14Syms[a])[0] == string(c14Syms[b])[0]
+}
 
 // input: decimal literal of num; args: dec, group, gs, ds (indices)
 func c14Number(c *engine.Ctx, in []byte, args map[string]string) {
@@ -457,8 +461,11 @@ func c14Work(c *engine.Ctx) {
 						if gs == ds {
 							continue
 						}
-						if !c.Thorough() && gs > 3 && ds > 3 {
+						if !c.Thorough() && gs > 3 && ds > 3 && !c14SameLead(gs, ds) {
 							continue
+						}
+						if (gs > 5 || ds > 5) && !c14SameLead(gs, ds) && gs >= 2 && ds >= 2 {
+							continue // the additional symbols are there for the pairs with a common lead byte (and with ',' and '.')
 						}
 						c.Exec(nsp, lit, map[string]string{"dec": stdconv.Itoa(dec), "group": stdconv.Itoa(group), "gs": stdconv.Itoa(gs), "ds": stdconv.Itoa(ds)})
 						c.Count("exec", 1)
@@ -558,7 +565,7 @@ func c14Finish(c *engine.Ctx, cov map[string]interface{}) string {
 func init() {
 	register(&engine.Check{
 		ID: "C14", Level: "exploration",
-		Rule:        "parsers: all strings ≤7 over {+ - 0 1 5 9 . e E x} and single-edit neighbours of 110 boundary numerals (18 and more significant digits at both ends of the float64 range, exponents at and beyond the int64 range) vs strconv.ParseInt/ParseUint/ParseFloat on the longest syntactic prefix; AppendInt/LenInt on {±(10^k+d), ±(2^k+d), 0, min, max}; AppendNumber→ParseNumber on that family × dec 0..18 × groupSize 0..6 × ordered pairs of distinct symbols of 1–4 UTF-8 bytes; AppendFloat on m·10^e (m≤99 quick / 999 thorough, e∈[-330,310], both signs) × prec −1..18: well-formed, right sign, within one unit of the requested last digit (big.Float); AppendDecimal on e∈[-20,40] ∪ {100, 308} × dec 0..18 vs big.Rat round-half-away with trailing zeros dropped; both formatters also on the two float64 neighbours of each m·10^e and on integers and binary fractions around 2^44 … 2^63; every formatter with a prefix in the destination at cap==len and with room",
+		Rule:        "parsers: all strings ≤7 over {+ - 0 1 5 9 . e E x} and single-edit neighbours of 110 boundary numerals (18 and more significant digits at both ends of the float64 range, exponents at and beyond the int64 range) vs strconv.ParseInt/ParseUint/ParseFloat on the longest syntactic prefix; AppendInt/LenInt on {±(10^k+d), ±(2^k+d), 0, min, max}; AppendNumber→ParseNumber on that family × dec 0..18 × groupSize 0..6 × ordered pairs of distinct symbols of 1–4 UTF-8 bytes (among them pairs that share their UTF-8 lead byte); AppendFloat on m·10^e (m≤99 quick / 999 thorough, e∈[-330,310], both signs) × prec −1..18: well-formed, right sign, within one unit of the requested last digit (big.Float); AppendDecimal on e∈[-20,40] ∪ {100, 308} × dec 0..18 vs big.Rat round-half-away with trailing zeros dropped; both formatters also on the two float64 neighbours of each m·10^e and on integers and binary fractions around 2^44 … 2^63; every formatter with a prefix in the destination at cap==len and with room",
 		Assumptions: []string{"a parsed value within 1e-14 of the largest float64 may come out as infinity and the other way round (the tolerance applied at the overflow threshold)", "AppendDecimal is accepted if it equals round-half-away of either the shortest decimal form of the float or its exact binary value, or of a float64 within one ulp of the product f·10^dec when that product is not exact; when the product does not fit an int64 the dropped decimals may differ by 8 ulp of the argument"},
 		Setup:       c14Setup, Work: c14Work, Finish: c14Finish,
 	})
